@@ -445,7 +445,7 @@ theorem cAllValid_iff (sat : Bool) (m : Nat) (geom : Bool) (v : Nat → Bool) :
     · subst hj; exact h1
     · exact h4 j a (by omega)
 
-/-- [AF] with the proposed fixes (F120–F122) both forms of the constrained validator answer valid
+/-- [AF] since the fixes F120–F122 (894715569, a7ee00eca) both forms of the constrained validator answer valid
 exactly when the end state satisfies the constraint, the traversal arrives and every visited state
 and the end state are valid. -/
 theorem constrained_verdict (hasFirst sat : Bool) (m : Nat) (geom : Bool) (v : Nat → Bool) :
@@ -501,7 +501,7 @@ theorem constrained_lastValid (hasFirst sat : Bool) (m : Nat) (geom : Bool) (v :
 
 example : (constrained3 true true 5 true (fun j => j != 3)).back = some 2 := by decide
 
-/-- [AF] what holds of the code as it stands in /repo: both forms agree and answer valid exactly when
+/-- [AF] what held of the former code (before F120–F122): both forms agree and answer valid exactly when
 the end state satisfies the constraint, the traversal arrives and every VISITED state is valid —
 the end state's own validity does not enter. -/
 theorem constrained_old_partial (hasFirst sat : Bool) (m : Nat) (geom : Bool) (v : Nat → Bool) :
@@ -516,7 +516,7 @@ theorem constrained_old_partial (hasFirst sat : Bool) (m : Nat) (geom : Bool) (v
   · unfold constrained2Old constrained3Old
     cases sat <;> cases hasFirst <;> cases (traverse m geom v).1 <;> simp
 
-/-- F121 on the code in /repo: a motion whose end state is invalid is accepted (every visited state
+/-- F121 on the former code (before a7ee00eca): a motion whose end state is invalid is accepted (every visited state
 valid, the constraint satisfied, the traversal arrives) — by both forms. -/
 theorem constrained_old_endstate_fails :
     ¬ ∀ (sat : Bool) (m : Nat) (geom : Bool) (v : Nat → Bool),
@@ -525,7 +525,7 @@ theorem constrained_old_endstate_fails :
   have := h true 2 true (fun j => j != 3) (by decide)
   simp at this
 
-/-- F120 on the code in /repo: no call of either form moves a counter. -/
+/-- F120 on the former code (before 894715569): no call of either form moves a counter. -/
 theorem constrained_old_counters_fails :
     ¬ ∀ (hasFirst sat : Bool) (m : Nat) (geom : Bool) (v : Nat → Bool),
         CCountsOnce (constrained2Old sat m geom v) ∧ CCountsOnce (constrained3Old hasFirst sat m geom v) := by
@@ -533,7 +533,7 @@ theorem constrained_old_counters_fails :
   have := (h true true 1 true (fun _ => true)).1
   simp [constrained2Old, CCountsOnce] at this
 
-/-- F122 on the code in /repo: an invalid motion checked with `lastValid.first == nullptr` (or
+/-- F122 on the former code (before a7ee00eca): an invalid motion checked with `lastValid.first == nullptr` (or
 rejected only because the end state violates the constraint) leaves `lastValid.second` unwritten. -/
 theorem constrained_old_second_unwritten_fails :
     ¬ ∀ (hasFirst sat : Bool) (m : Nat) (geom : Bool) (v : Nat → Bool),
@@ -543,6 +543,22 @@ theorem constrained_old_second_unwritten_fails :
   have := h false true 2 true (fun j => j != 1) (by decide)
   revert this
   decide
+
+/-- [AF] since fix F123 (03f44d7d7) the tangent-bundle wrapper keeps the validator's verdict and leaves
+the caller's `lastValid.first` alone after a valid motion, whatever it held. -/
+theorem tbWrap_preserves (hasFirst projOk : Bool) (r : CResult) :
+    (tbWrap hasFirst projOk r).1 = r.verdict ∧ (r.verdict = true → (tbWrap hasFirst projOk r).2 = false) := by
+  unfold tbWrap
+  cases hv : r.verdict <;> cases hasFirst <;> simp
+
+/-- F123 on the former code (before 03f44d7d7): a valid motion checked with a non-null `lastValid.first` has that storage
+modified, and comes back invalid when its re-projection fails. -/
+theorem tbWrap_old_fails :
+    ¬ ∀ (hasFirst projOk : Bool) (r : CResult),
+        (tbWrapOld hasFirst projOk r).1 = r.verdict ∧ (r.verdict = true → (tbWrapOld hasFirst projOk r).2 = false) := by
+  intro h
+  have := (h true false ⟨true, none, false, [], 1, 0⟩).1
+  simp [tbWrapOld] at this
 
 /-! ### getMotionStates -/
 
